@@ -169,6 +169,15 @@ fn documents(thorough: bool) -> Vec<String> {
             v.push(format!("{{\"b\":{},\"a\":[{}]}}", x, x));
         }
     }
+    // an index step must not select an object member named like the index, a key step not an array element
+    for x in ["1", "\"s\""] {
+        v.push(format!("{{\"0\":{}}}", x));
+        v.push(format!("{{\"1\":{}}}", x));
+        v.push(format!("{{\"a\":{{\"0\":{},\"1\":{}}}}}", x, x));
+        v.push(format!("{{\"l\":{{\"1\":{}}}}}", x));
+        v.push(format!("[{{\"0\":{}}},{{\"1\":{}}}]", x, x));
+        v.push(format!("{{\"a\":[{{\"1\":{}}},{{\"0\":{}}}]}}", x, x));
+    }
     // textual variants
     let small = ["{\"a\":1}", "{\"a\":[1,{\"b\":\"x\"}]}", "[1,{\"a\":true}]", "{\"a\":{\"b\":1.5}}", "{\"a\":\"12\",\"b\":null}"];
     for s in small {
